@@ -104,8 +104,11 @@ class Tables:
         if a["prod0"] != -1:
             out.append(((), a["prod0"]))
         stack = [(0, ())]
+        maxlen = max(a["k"], 1) + 2          # a broken (cyclic) automaton must not make this loop forever
         while stack and len(out) < limit:
             s, w = stack.pop()
+            if len(w) > maxlen:
+                continue
             for t in a["trans"]:
                 if t[0] == s:
                     if t[3] != -1:
